@@ -229,7 +229,11 @@ Definition dependsOn (c1 c2 : change) : bool :=
   | DropTable _ _, AddTable _ _ => false
   | ModifyTable t1 cs, AddTable t2 _ =>
       same_table t1 t2
-      || existsb (fun c => match c with AddFK f => same_table (f_ref f) t2 | _ => false end) cs
+      || existsb (fun c => match c with
+                            | AddFK f => same_table (f_ref f) t2
+                            | ModifyFK _ to => same_table (f_ref to) t2    (* fix C04-modfk-detached *)
+                            | _ => false
+                            end) cs
   | ModifyTable _ _, ModifyTable _ _ => false
   | ModifyTable _ _, DropTable _ _ => false
   end.
